@@ -43,7 +43,7 @@ func listDump(l bsonkit.List) string {
 }
 
 func genC03(seed uint64, run int, tier string) *Plan {
-	p := genC04(seed^0xc03, run, tier)
+	p := genC04Plain(seed^0xc03, run, tier)
 	r := newRNG(seed, 3)
 	p.Prop = "C03"
 	p.Cfg.Strategy = pick(r, "nonpreempt", "nonpreempt", "nonpreempt", "random", "pct", "sticky")
@@ -52,7 +52,31 @@ func genC03(seed uint64, run int, tier string) *Plan {
 		var ops []Op
 		for _, op := range p.Tasks[ti].Ops {
 			ops = append(ops, op)
-			switch r.IntN(14) {
+			switch r.IntN(18) {
+			case 14:
+				// documents with embedded documents and arrays of documents: snapshots must not share them with later versions
+				id := int32(r.IntN(3))
+				ops = append(ops, Op{K: "replaceOne", DB: "db", C: "k", Upsert: true, F: jd(bson.D{{Key: "_id", Value: id}}), D: jd(bson.D{{Key: "n", Value: int32(0)},
+					{Key: "items", Value: bson.A{bson.D{{Key: "k", Value: int32(1)}, {Key: "v", Value: "x"}}, bson.D{{Key: "k", Value: int32(2)}, {Key: "v", Value: "y"}}}},
+					{Key: "o", Value: bson.D{{Key: "p", Value: int32(1)}, {Key: "q", Value: bson.D{{Key: "z", Value: "deep"}}}}}, {Key: "t", Value: bson.A{int32(1), int32(2)}}})})
+			case 15, 16:
+				// updates through arrays and embedded documents
+				u := pick(r,
+					bson.D{{Key: "$inc", Value: bson.D{{Key: "items.0.k", Value: int32(1)}}}},
+					bson.D{{Key: "$set", Value: bson.D{{Key: "items.1.v", Value: fmt.Sprintf("v%d", r.IntN(1000))}}}},
+					bson.D{{Key: "$set", Value: bson.D{{Key: "o.q.z", Value: fmt.Sprintf("z%d", r.IntN(1000))}}}},
+					bson.D{{Key: "$inc", Value: bson.D{{Key: "o.p", Value: int32(1)}}}},
+					bson.D{{Key: "$push", Value: bson.D{{Key: "t", Value: int32(r.IntN(9))}}}},
+					bson.D{{Key: "$pop", Value: bson.D{{Key: "t", Value: int32(1)}}}},
+					bson.D{{Key: "$inc", Value: bson.D{{Key: "t.0", Value: int32(1)}}}})
+				op := Op{K: pick(r, "updateOne", "updateMany"), DB: "db", C: "k", F: jd(bson.D{{Key: "items", Value: bson.D{{Key: "$exists", Value: true}}}}), U: jd(u)}
+				if r.IntN(3) == 0 {
+					// inside a transaction that is aborted or ended: must leave no trace in anybody's snapshot
+					op = Op{K: "s.txn", End: pick(r, "abort", "end", "commit"), Tag: "n", Sub: []Op{op}}
+				}
+				ops = append(ops, op)
+			case 17:
+				ops = append(ops, Op{K: "deleteOne", DB: "db", C: "k", F: jd(bson.D{{Key: "items", Value: bson.D{{Key: "$exists", Value: true}}}})})
 			case 0:
 				ops = append(ops, Op{K: "createIndex", DB: "db", C: "k", D: jd(bson.D{{Key: pick(r, "n", "by", "m"), Value: int32(1)}})})
 			case 1:
